@@ -150,6 +150,7 @@ func genSubs() {
 	genHookLocks(&sb)
 	genRegisterHook(&sb)
 	genRegistryPush(&sb)
+	genPushUpdateGuard(&sb)
 
 	sb.WriteString("end PB.Gen.Subs\n")
 	write("Subs.lean", sb.String())
@@ -771,6 +772,85 @@ func genRegistryPush(sb *strings.Builder) {
 	sb.WriteString("    (under the registry lock) each time it is called (true), or does it push to the controller the registry had when\n")
 	sb.WriteString("    the provider was registered (false)? -/\n")
 	fmt.Fprintf(sb, "def pushReadsControllerAtPush : Bool := %v\n\n", atPush)
+}
+
+// Controller.PushUpdate must be exactly
+//   if c != nil { if <guard> { return }; [verifEvent(…);] c.notifySubscribers(r) }
+// with <guard> a disjunction of `shuttingDown.IsSet()` (required) and, possibly, `c.ReadOnly()` / `c.storage.ReadOnly()`
+// (the guard Put has: a database whose storage accepts no Put pushes nothing — reported as pushUpdateSkipsReadOnly).
+// Any other disjunct, operator or statement: fail closed.
+func genPushUpdateGuard(sb *strings.Builder) {
+	fset, f := parseFile("database/controller.go")
+	fd := findFunc(f, "PushUpdate", "Controller")
+	if fd == nil {
+		die("Controller.PushUpdate not found")
+	}
+	if fd.Recv == nil || len(fd.Recv.List) != 1 || len(fd.Recv.List[0].Names) != 1 || fd.Recv.List[0].Names[0].Name != "c" {
+		die("Controller.PushUpdate: receiver is not named c")
+	}
+	if fd.Type.Params == nil || len(fd.Type.Params.List) != 1 || len(fd.Type.Params.List[0].Names) != 1 {
+		die("Controller.PushUpdate: expected one parameter")
+	}
+	param := fd.Type.Params.List[0].Names[0].Name
+	if len(fd.Body.List) != 1 {
+		die("Controller.PushUpdate: expected the single statement `if c != nil {…}`")
+	}
+	outer, ok := fd.Body.List[0].(*ast.IfStmt)
+	if !ok || outer.Init != nil || outer.Else != nil || exprString(fset, outer.Cond) != "c != nil" {
+		die("Controller.PushUpdate: expected the single statement `if c != nil {…}` without else")
+	}
+	var disjuncts func(e ast.Expr) []string
+	disjuncts = func(e ast.Expr) []string {
+		switch x := e.(type) {
+		case *ast.ParenExpr:
+			return disjuncts(x.X)
+		case *ast.BinaryExpr:
+			if x.Op == token.LOR {
+				return append(disjuncts(x.X), disjuncts(x.Y)...)
+			}
+		}
+		return []string{exprString(fset, e)}
+	}
+	guards, shutdown, readOnly, notified := 0, false, false, 0
+	for _, st := range outer.Body.List {
+		switch x := st.(type) {
+		case *ast.IfStmt:
+			if notified > 0 || x.Init != nil || x.Else != nil || len(x.Body.List) != 1 {
+				die("Controller.PushUpdate: unexpected if statement: %s", exprString(fset, x.Cond))
+			}
+			if ret, ok := x.Body.List[0].(*ast.ReturnStmt); !ok || len(ret.Results) != 0 {
+				die("Controller.PushUpdate: a guard does something else than return")
+			}
+			guards++
+			for _, d := range disjuncts(x.Cond) {
+				switch d {
+				case "shuttingDown.IsSet()":
+					shutdown = true
+				case "c.ReadOnly()", "c.storage.ReadOnly()":
+					readOnly = true
+				default:
+					die("Controller.PushUpdate: unknown condition under which a pushed update is dropped: %s", d)
+				}
+			}
+		case *ast.ExprStmt:
+			if isVerifEventCall(x.X) {
+				continue
+			}
+			if exprString(fset, x.X) != "c.notifySubscribers("+param+")" {
+				die("Controller.PushUpdate: unexpected statement: %s", exprString(fset, x.X))
+			}
+			notified++
+		default:
+			die("Controller.PushUpdate: unexpected statement %T", st)
+		}
+	}
+	if !shutdown || notified != 1 || guards > 2 {
+		die("Controller.PushUpdate: expected the shutdown guard and exactly one c.notifySubscribers(%s)", param)
+	}
+	sb.WriteString("/-- `Controller.PushUpdate` (database/controller.go), regenerated from its guards: is a pushed update dropped when the\n")
+	sb.WriteString("    storage says `ReadOnly()` (the guard `Put` has), besides the shutdown guard? Nothing else may stand between the\n")
+	sb.WriteString("    call and `notifySubscribers`. -/\n")
+	fmt.Fprintf(sb, "def pushUpdateSkipsReadOnly : Bool := %v\n\n", readOnly)
 }
 
 func exprOf(e ast.Expr) string {
